@@ -106,7 +106,16 @@ impl Story {
         let mut output_stream_ends_in_newline = false;
         self.saw_lookahead_unsafe_function_after_new_line = false;
 
+        #[cfg(feature = "verif-hooks")]
+        let mut verif_slice_steps: u32 = 0;
+
         loop {
+            #[cfg(feature = "verif-hooks")]
+            if self.verif.fuel_exhausted() {
+                self.add_error(crate::story::verif::FUEL_MESSAGE, false);
+                break;
+            }
+
             match self.continue_single_step() {
                 Ok(r) => output_stream_ends_in_newline = r,
                 Err(e) => {
@@ -117,6 +126,19 @@ impl Story {
 
             if output_stream_ends_in_newline {
                 break;
+            }
+
+            // Virtual clock: a host-set budget of interpreter steps per slice.
+            #[cfg(feature = "verif-hooks")]
+            {
+                verif_slice_steps += 1;
+                self.verif.total_steps += 1;
+                if self.async_continue_active
+                    && let Some(budget) = self.verif.async_step_budget
+                    && verif_slice_steps >= budget
+                {
+                    break;
+                }
             }
 
             // Run out of async time?
